@@ -1,9 +1,125 @@
-(* C19 - Feature switches are orthogonal: the Coq part (non-interference of features a program does not use). with_log/with_plans/with_serial/with_history cfg x = the configuration with that switch set to x. 'Every combination compiles' and 'the shipped header equals the amalgamation' are decided by enumeration and byte comparison in the check, not here. *)
+(* C19 - Feature switches are orthogonal: the Coq part (non-interference of features a program does not use). with_log/with_plans/with_serial/with_history cfg x = the configuration with that switch set to x; with_features sets all four; strip forgets the logger and its records, strip_h forgets previousTransition(); a program 'does not use' plans when its callbacks issue no succeed/fail/plan action (no_plan_oracle) and its history has no plan operation (no_plan_op), and 'does not use' transition history when it calls neither replayEnter nor replayTransition. 'Every combination compiles' and 'the shipped header equals the amalgamation' are decided by enumeration and byte comparison in the check, not here. *)
 From Coq Require Import List Arith Bool NArith.
 From FFSM2 Require Import Model.TaskList Model.BitArray Model.BitStream Model.Plan Model.Ancestors Model.Machine
   Proofs.BitArrayProofs Proofs.MachineFrame Proofs.MachinePlan Proofs.MachineLife Proofs.GuardProofs Proofs.CycleProofs Proofs.PlanStep
-  Proofs.SerialProofs Proofs.LogProofs Proofs.MachineTop Model.Multi Generated.InitFacts Proofs.ConstructProofs Proofs.LifeMonitor Proofs.ActivationRounds Proofs.IndexSafety.
+  Proofs.SerialProofs Proofs.LogProofs Proofs.MachineTop Model.Multi Generated.InitFacts Proofs.ConstructProofs Proofs.LifeMonitor Proofs.ActivationRounds Proofs.IndexSafety Proofs.FeatureProofs.
 Import ListNotations.
+
+(* for every history that uses none of the features and every two settings of (plans, serialization, history, log mode, logger): same returns, and the same run once logger records and previousTransition() are forgotten *)
+Theorem C19_all_four_switches :
+  forall (P : Type) (cfg : config) (orc orc' : oracle P),
+         c_cap cfg <= 255 ->
+         log_blind P orc orc' ->
+         no_plan_oracle P orc ->
+         forall ops : list (api_op P),
+         Forall (featureless_op P) ops ->
+         forall (pl1 sr1 h1 : bool) (lm1 : logmode) (lg1 pl2 sr2 h2 : bool) (lm2 : logmode) (lg2 : bool),
+         strip_h P (strip P (run P (with_features cfg pl1 sr1 h1 lm1) orc' lg1 ops)) =
+         strip_h P (strip P (run P (with_features cfg pl2 sr2 h2 lm2) orc' lg2 ops)) /\
+         run_rets P (with_features cfg pl1 sr1 h1 lm1) orc' lg1 ops =
+         run_rets P (with_features cfg pl2 sr2 h2 lm2) orc' lg2 ops.
+Proof. exact (features_irrelevant). Qed.
+Print Assumptions C19_all_four_switches.
+
+(* in particular: same callbacks/actions/results in the same order, same active state, request and plan *)
+Theorem C19_all_four_switches_observable :
+  forall (P : Type) (cfg1 : config) (orc orc' : oracle P),
+         c_cap cfg1 <= 255 ->
+         log_blind P orc orc' ->
+         no_plan_oracle P orc ->
+         forall ops : list (api_op P),
+         Forall (featureless_op P) ops ->
+         forall (pl sr h : bool) (lm : logmode) (lg1 lg2 : bool),
+         let cfg2 := with_features cfg1 pl sr h lm in
+         let l := run P cfg1 orc' lg1 ops in
+         let r := run P cfg2 orc' lg2 ops in
+         erase P (tr P l) = erase P (tr P r) /\
+         active P (co P l) = active P (co P r) /\
+         requested P (co P l) = requested P (co P r) /\
+         request P (co P l) = request P (co P r) /\
+         plan P (co P l) = plan P (co P r) /\ run_rets P cfg1 orc' lg1 ops = run_rets P cfg2 orc' lg2 ops.
+Proof. exact (features_irrelevant_observable). Qed.
+Print Assumptions C19_all_four_switches_observable.
+
+Theorem C19_features_against_the_bare_machine :
+  forall (P : Type) (cfg : config) (orc orc' : oracle P),
+         c_cap cfg <= 255 ->
+         log_blind P orc orc' ->
+         no_plan_oracle P orc ->
+         forall ops : list (api_op P),
+         Forall (featureless_op P) ops ->
+         forall (pl sr h : bool) (lm : logmode) (lg : bool),
+         strip_h P (strip P (run P (with_features cfg pl sr h lm) orc' lg ops)) = bare_run P cfg orc ops /\
+         run_rets P (with_features cfg pl sr h lm) orc' lg ops = bare_rets P cfg orc ops.
+Proof. exact (features_transparent). Qed.
+Print Assumptions C19_features_against_the_bare_machine.
+
+(* the serialization switch changes nothing but the availability of save/load *)
+Theorem C19_serialization_is_inert :
+  forall (P : Type) (cfg : config) (b : bool) (orc : oracle P) (lg : bool) (ops : list (api_op P)),
+         run P (with_serial cfg b) orc lg ops = run P cfg orc lg ops.
+Proof. exact (serial_run). Qed.
+Print Assumptions C19_serialization_is_inert.
+
+Theorem C19_serialization_observe :
+  forall (P : Type) (cfg : config) (b : bool) (c : core P),
+         observe P (with_serial cfg b) c =
+         {|
+           o_active := o_active P (observe P cfg c);
+           o_on := o_on P (observe P cfg c);
+           o_act := o_act P (observe P cfg c);
+           o_request := o_request P (observe P cfg c);
+           o_prev := o_prev P (observe P cfg c);
+           o_plan := o_plan P (observe P cfg c);
+           o_first := o_first P (observe P cfg c);
+           o_last := o_last P (observe P cfg c);
+           o_ser := if b then save P cfg c else []
+         |}.
+Proof. exact (serial_observe). Qed.
+Print Assumptions C19_serialization_observe.
+
+(* transition history is write-only for programs that do not replay *)
+Theorem C19_history_is_write_only :
+  forall (P : Type) (cfg : config) (orc : oracle P) (lg : bool) (ops : list (api_op P)),
+         Forall (no_history_op P) ops ->
+         strip_h P (run P (with_history cfg true) orc lg ops) = run P (with_history cfg false) orc lg ops.
+Proof. exact (history_run_on_off). Qed.
+Print Assumptions C19_history_is_write_only.
+
+Theorem C19_history_returns :
+  forall (P : Type) (cfg : config) (orc : oracle P) (lg : bool) (ops : list (api_op P)),
+         Forall (no_history_op P) ops ->
+         run_rets P (with_history cfg true) orc lg ops = run_rets P (with_history cfg false) orc lg ops.
+Proof. exact (history_run_rets_on_off). Qed.
+Print Assumptions C19_history_returns.
+
+(* with plans compiled in but unused the run is identical and the plan data stays as constructed *)
+Theorem C19_plans_idle :
+  forall (P : Type) (cfg : config) (orc : oracle P),
+         c_cap cfg <= 255 ->
+         no_plan_oracle P orc ->
+         forall (lg : bool) (ops : list (api_op P)),
+         Forall (no_plan_op P) ops ->
+         run P (with_plans cfg true) orc lg ops = run P (with_plans cfg false) orc lg ops /\
+         run_rets P (with_plans cfg true) orc lg ops = run_rets P (with_plans cfg false) orc lg ops /\
+         plan P (co P (run P (with_plans cfg true) orc lg ops)) = pd_init P (c_cap cfg) (c_n cfg).
+Proof. exact (plans_run). Qed.
+Print Assumptions C19_plans_idle.
+
+Theorem C19_plans_from_any_idle_state :
+  forall (P : Type) (cfg : config) (orc : oracle P),
+         c_cap cfg <= 255 ->
+         no_plan_oracle P orc ->
+         forall (ops : list (api_op P)) (s s' : mstate P),
+         Forall (no_plan_op P) ops ->
+         PlanIdle P (plan P (co P s)) ->
+         same_but_plan P s s' ->
+         same_but_plan P (run_from P (with_plans cfg true) orc s ops)
+           (run_from P (with_plans cfg false) orc s' ops) /\
+         rets_from P (with_plans cfg true) orc s ops = rets_from P (with_plans cfg false) orc s' ops /\
+         PlanIdle P (plan P (co P (run_from P (with_plans cfg true) orc s ops))).
+Proof. exact (plans_run_from_idle). Qed.
+Print Assumptions C19_plans_from_any_idle_state.
 
 (* for every history and every pair of log modes: forgetting the logger's records, the run with a logger equals the run without *)
 Theorem C19_logging_does_not_interfere :
